@@ -1,0 +1,22 @@
+//go:build verif
+
+// Verification contracts (comments only; compiled only with -tags verif).
+// Checked by /verif/bin/govc; see /verif/DESIGN.md.
+
+package util
+
+//@ // the BLS public key of a validator account (uninterpreted)
+//@ spec func pubkeyOf(account e2wtypes.Account) phase0.BLSPubKey
+//@
+//@ // wallet accounts hand out non-nil public keys (assumed: go-eth2-wallet-types implementations)
+//@ extern (github.com/wealdtech/go-eth2-wallet-types/v2.AccountPublicKeyProvider).PublicKey
+//@   ensures result != nil
+//@ extern (github.com/wealdtech/go-eth2-wallet-types/v2.AccountCompositePublicKeyProvider).CompositePublicKey
+//@   ensures result != nil
+//@
+//@ // the value clause (result == pubkeyOf(account)) is assumed, the safety obligations of the body are proved
+//@ func ValidatorPubkey
+//@   trusted
+//@   requires account != nil
+//@   ensures result == pubkeyOf(account)
+//@   modifies nothing
